@@ -442,8 +442,8 @@ Proof.
     destruct (gen_index (Z.of_nat (S i) + 1) stream) as [[d r]|] eqn:G; [|discriminate].
     destruct (draws_from_stream i r) as [[t r']|] eqn:D; [|discriminate].
     injection H as <- <-.
-    destruct (gen_index_in_range _ _ _ _ ltac:(lia) U G) as [Hd Ur].
-    destruct (IH r t r' ltac:(lia) Ur D) as [V Ur'].
+    destruct (gen_index_in_range (Z.of_nat (S i) + 1) stream d r ltac:(lia) U G) as [Hd Ur].
+    destruct (IH r t r' ltac:(unfold two32 in *; lia) Ur D) as [V Ur'].
     split; [|exact Ur']. cbn [valid_draws]. split; [lia|exact V].
 Qed.
 
@@ -455,7 +455,7 @@ Proof.
   intros B U H. unfold shuffle_stream in H.
   destruct (draws_from_stream (length l - 1) stream) as [[t r]|] eqn:D; [|discriminate].
   injection H as <- <- <-.
-  destruct (draws_from_stream_valid _ _ _ _ ltac:(lia) U D) as [V _].
+  destruct (draws_from_stream_valid (length l - 1) stream t r ltac:(unfold two32 in *; lia) U D) as [V _].
   split; [exact V|]. split; [reflexivity|apply fisher_yates_perm].
 Qed.
 
